@@ -122,3 +122,32 @@ def check_newton_step(ctx, rule, v, amp, d, dprod, sumx, n, key):
     want = norm_shape(("div", (("mul", (d, ("add", (("mul", (ann, sumx)), ("mul", (dprod, n)))))),
                                ("add", (("mul", (d, ("sub", (ann, "const(1)")))), ("mul", (dprod, ("add", (n, "const(1)")))))))))
     ctx.ob(rule, "%s|newton-step" % key, rets == [want], "returned value %s (expected %s)" % (rets, want), v.where())
+
+
+def deposit_pool_index(v, model, operand, at, proj=()):
+    """Which pool position a deposit amount belongs to: the operand must be
+    `assets.iter().find(|a| a.info.equal(&pools[i].info)).map(|a| a.amount)` (in any spelling that keeps these calls);
+    returns the sorted list of pool indices `i` the find-closure compares with ("?" when the shape is not recognised)."""
+    from ..dataflow import call_of
+    from ..guards import resolve
+    found = set()
+    for o in v.origins_of_operand(operand, proj=tuple(proj), at=at):
+        c = call_of(v, o)
+        if not c or not mname(c[1]).endswith("Option::map"):
+            found.add("?")
+            continue
+        for fo in v.origins_of_operand(c[1]["args"][0], at=v.at_term(c[0])):
+            fc = call_of(v, fo)
+            if not fc or not mname(fc[1]).endswith("Iterator>::find"):
+                found.add("?")
+                continue
+            for co in v.origins_of_operand(fc[1]["args"][1], at=v.at_term(fc[0])):
+                if co.kind == "closure" and co.a in model.fnsrc:
+                    cv = model.view(co.a)
+                    chain = ((v.path, fc[0], "closure"),)
+                    for xb, xt in cv.calls_to(r"AssetInfo::equal$"):
+                        for arg in xt["args"]:
+                            for r in resolve(model, chain, cv, cv.origins_of_operand(arg, at=cv.at_term(xb))):
+                                if r.kind == "call" and r.a.endswith("query_pools") and r.proj and r.proj[-1] == "info":
+                                    found.add(r.proj[0])
+    return sorted(found) or ["?"]
